@@ -415,18 +415,19 @@ def duplicate_milestone(rng, s, b):
     return "two actions claim one milestone"
 
 
-def mutate(rng, n_actions=None, only=None, threads=False):  # noqa
-    """(scenario, mutator_name, owner, description) for a fresh conformant scenario with one fault."""
+def mutate(rng, n_actions=None, only=None, threads=False):
+    """(scenario, mutator_name, owner, description) for a fresh conformant scenario with one fault.
+    The mutator is chosen first (uniformly), then scenarios are generated until it applies."""
     names = sorted(MUTATORS) if only is None else [m for m in sorted(MUTATORS) if MUTATORS[m][0] in only or m in only]
-    for _ in range(80):
-        s, b = S.gen_valid(rng, n_actions or rng.choice([3, 4, 5, 6, 8]), threads, builder=True)
+    for _ in range(20):
         name = rng.choice(names)
-        if name in THREAD_ONLY and not s["groups"]:
-            s, b = S.gen_valid(rng, n_actions or rng.choice([3, 4, 5, 6]), True, builder=True)
         owner, f = MUTATORS[name]
-        desc = f(rng, s, b)
-        if desc is not None:
-            return s, name, owner, desc
+        for _ in range(40):
+            want_threads = threads or name in THREAD_ONLY
+            s, b = S.gen_valid(rng, n_actions or rng.choice([3, 4, 5, 6, 8]), want_threads, builder=True)
+            desc = f(rng, s, b)
+            if desc is not None:
+                return s, name, owner, desc
     raise RuntimeError("no applicable mutator among %s" % names)
 
 
@@ -595,3 +596,89 @@ def edit_outside_fulfilment_context(rng, s, b):
 THREAD_ONLY = {"threaded_checkpoint_used_outside", "threaded_action_compared_outside", "variable_used_outside",
                "spawn_from_non_list", "spawn_not_fulfilled_by_ancestor", "unused_thread_group",
                "variable_name_repeats_in_chain", "promise_context_mismatch", "edit_outside_fulfilment_context"}
+
+
+# ------------------------------------------------------------------------------------------------ C07 appends_objects_to
+def _appenders(s):
+    return [a for a in s["actions"] if a["op"]["appends"] is not None]
+
+
+@mutator("C07")
+def appends_wrong_collection(rng, s, b):
+    ap = _appenders(s)
+    if not ap:
+        return None
+    a = rng.choice(ap)
+    q, path = a["op"]["appends"]
+    qt = b.otype(next(p for p in s["promises"] if p["id"] == q[1])["type"][1])
+    my_type = next(p for p in s["promises"] if p["id"] == a["promise"][1])["type"]
+    wrong = [at["name"] for at in qt["attrs"] if not (at["kind"][0] == "C" and at["kind"][1] == my_type)]
+    if not wrong:
+        return None
+    a["op"]["appends"] = (q, [rng.choice(wrong)])
+    return "appends_objects_to names an attribute that is not an edge collection of the action's own object type"
+
+
+@mutator("C07")
+def appends_by_dependee(rng, s, b):
+    ap = _appenders(s)
+    others = [x for x in s["actions"] if x["dep"] is not None]
+    if not ap or not others:
+        return None
+    a = rng.choice(ap)
+    cands = [x for x in others if x["id"] != a["id"] and x["id"] not in b.anc[a["id"]] and x["ctx"] == a["ctx"]]
+    if not cands:
+        return None
+    x = rng.choice(cands)
+    c = next(cc for cc in s["checkpoints"] if cc["id"] == x["dep"][1])
+    add_dep(rng, c, b.make_cmp(a["id"])[0])
+    return "an action that appends objects is itself a dependency of a checkpoint"
+
+
+@mutator("C07")
+def appends_to_settable_collection(rng, s, b):
+    ap = _appenders(s)
+    if not ap:
+        return None
+    a = rng.choice(ap)
+    q, path = a["op"]["appends"]
+    users = [x for x in s["actions"] if x["promise"][1] == q[1]]
+    x = rng.choice(users)
+    x["op"]["incl"] = ("include", sorted(set((x["op"]["incl"][1] or []) if x["op"]["incl"][0] == "include" else []) | {path[-1]}))
+    return "the appended-to edge collection is settable by an action's operation"
+
+
+@mutator("C07")
+def appends_on_edit(rng, s, b):
+    ap = _appenders(s)
+    eds = [x for x in s["actions"] if b.creator.get(x["promise"][1]) != x["id"]]
+    if not ap or not eds:
+        return None
+    x = rng.choice(eds)
+    x["op"]["appends"] = rng.choice(ap)["op"]["appends"]
+    return "appends_objects_to on an editing action"
+
+
+@mutator("C07")
+def appends_ancestry_not_guaranteed(rng, s, b):
+    """The appended-to promise's fulfiller is reachable only through one branch of an OR gate."""
+    ap = _appenders(s)
+    rng.shuffle(ap)
+    for a in ap:
+        cp = next(c for c in s["checkpoints"] if c["id"] == a["dep"][1])
+        q = a["op"]["appends"][0][1]
+        f = b.creator[q]
+        others = [x["id"] for x in s["actions"] if x["ctx"] is None and x["id"] != f and f not in b.anc[x["id"]]
+                  and x["id"] != a["id"] and a["id"] not in b.anc[x["id"]] and x["op"]["appends"] is None]
+        mentions_f = [d for d in cp["deps"] if d[0] == "cmp" and any(o[0] == "act" and o[1][1] == f for o in (d[1], d[3]))]
+        rest = [d for d in cp["deps"] if d not in mentions_f]
+        if not others or len(mentions_f) != 1 or any(d[0] == "ref" for d in rest):
+            continue
+        if any(o[0] == "act" and (o[1][1] == f or f in b.anc[o[1][1]]) for d in rest for o in (d[1], d[3])):
+            continue
+        if a["ctx"] is not None:
+            continue
+        cp["deps"] = mentions_f + rest + [b.make_cmp(rng.choice(others))[0]]
+        cp["gate"] = "OR"
+        return "fulfilment of the appended-to promise is reachable only through one branch of an OR gate"
+    return None
